@@ -106,7 +106,8 @@ static void c10_skinny(uint64_t idx, vh_rng *r)
             if (bb == 16) {
                 Skinny128TweakedKey_t tk; Skinny128Key_t pk, save;
                 /* pre-existing known good schedule */
-                if (tweaked) skinny128_set_tweaked_key(&tk, old, 32); else skinny128_set_key(&pk, old, 48);
+                Skinny128TweakedKey_t twin; uint8_t savetw[16];
+                if (tweaked) { skinny128_set_tweaked_key(&tk, old, 32); skinny128_set_tweak(&tk, old + 32, 16); twin = tk; memcpy(savetw, tk.tweak, 16); } else skinny128_set_key(&pk, old, 48);
                 save = tweaked ? tk.ks : pk;
                 probe_plain128(tweaked ? &tk.ks : &pk, blocks, &before);
                 vh_call_begin(ename[e]);
@@ -116,6 +117,13 @@ static void c10_skinny(uint64_t idx, vh_rng *r)
                 if (!should_accept && !ret) {
                     const Skinny128Key_t *now = tweaked ? &tk.ks : &pk;
                     if (now->rounds != save.rounds || memcmp(now->schedule, save.schedule, save.rounds * sizeof(save.schedule[0]))) bad = "rejected-call-modified-schedule";
+                    else if (tweaked && memcmp(tk.tweak, savetw, 16)) bad = "rejected-call-modified-stored-tweak";
+                    else if (tweaked) {   /* a later tweak change must behave as if the rejected call never happened */
+                        probe_t p1, p2;
+                        skinny128_set_tweak(&tk, keybytes + 64, 16); skinny128_set_tweak(&twin, keybytes + 64, 16);
+                        probe_plain128(&tk.ks, blocks, &p1); probe_plain128(&twin.ks, blocks, &p2);
+                        if (memcmp(&p1, &p2, sizeof(p1))) bad = "rejected-call-changed-later-results";
+                    }
                 }
                 if (should_accept && ret) {
                     Skinny128TweakedKey_t tk2; Skinny128Key_t pk2;
@@ -124,7 +132,8 @@ static void c10_skinny(uint64_t idx, vh_rng *r)
                 }
             } else {
                 Skinny64TweakedKey_t tk; Skinny64Key_t pk, save;
-                if (tweaked) skinny64_set_tweaked_key(&tk, old, 16); else skinny64_set_key(&pk, old, 24);
+                Skinny64TweakedKey_t twin; uint8_t savetw[8];
+                if (tweaked) { skinny64_set_tweaked_key(&tk, old, 16); skinny64_set_tweak(&tk, old + 32, 8); twin = tk; memcpy(savetw, tk.tweak, 8); } else skinny64_set_key(&pk, old, 24);
                 save = tweaked ? tk.ks : pk;
                 probe_plain64(tweaked ? &tk.ks : &pk, blocks, &before);
                 vh_call_begin(ename[e]);
@@ -134,6 +143,13 @@ static void c10_skinny(uint64_t idx, vh_rng *r)
                 if (!should_accept && !ret) {
                     const Skinny64Key_t *now = tweaked ? &tk.ks : &pk;
                     if (now->rounds != save.rounds || memcmp(now->schedule, save.schedule, save.rounds * sizeof(save.schedule[0]))) bad = "rejected-call-modified-schedule";
+                    else if (tweaked && memcmp(tk.tweak, savetw, 8)) bad = "rejected-call-modified-stored-tweak";
+                    else if (tweaked) {
+                        probe_t p1, p2;
+                        skinny64_set_tweak(&tk, keybytes + 64, 8); skinny64_set_tweak(&twin, keybytes + 64, 8);
+                        probe_plain64(&tk.ks, blocks, &p1); probe_plain64(&twin.ks, blocks, &p2);
+                        if (memcmp(&p1, &p2, sizeof(p1))) bad = "rejected-call-changed-later-results";
+                    }
                 }
                 if (should_accept && ret) {
                     Skinny64TweakedKey_t tk2; Skinny64Key_t pk2;
@@ -146,12 +162,20 @@ static void c10_skinny(uint64_t idx, vh_rng *r)
             vh_handle h, h2; memset(&h, 0, sizeof(h)); memset(&h2, 0, sizeof(h2));
             c->ctr_init(&h);
             if (c->ctr_backend(&h) != (int)be) { c->ctr_cleanup(&h); bad = "backend-not-pinned"; goto judged; }
-            if (tweaked) c->ctr_set_tkey(&h, old, 2 * bb); else c->ctr_set_key(&h, old, 3 * bb, 0);
+            if (tweaked) { c->ctr_set_tkey(&h, old, 2 * bb); c->ctr_set_tweak(&h, old + 32, bb); } else c->ctr_set_key(&h, old, 3 * bb, 0);
             ctr_probe(c, &h, ctrv, &before);
             vh_call_begin(ename[e]);
             ret = tweaked ? c->ctr_set_tkey(&h, kp, L) : c->ctr_set_key(&h, kp, L, 0);
             vh_call_end();
             ctr_probe(c, &h, ctrv, &after);
+            if (!should_accept && !ret && tweaked) {   /* a later tweak change must behave as on a twin object that never saw the rejected call */
+                probe_t p1, p2;
+                c->ctr_init(&h2); c->ctr_set_tkey(&h2, old, 2 * bb); c->ctr_set_tweak(&h2, old + 32, bb);
+                c->ctr_set_tweak(&h, keybytes + 64, bb); c->ctr_set_tweak(&h2, keybytes + 64, bb);
+                ctr_probe(c, &h, ctrv, &p1); ctr_probe(c, &h2, ctrv, &p2);
+                c->ctr_cleanup(&h2);
+                if (memcmp(&p1, &p2, sizeof(p1))) bad = "rejected-call-changed-later-results";
+            }
             if (should_accept && ret) {
                 c->ctr_init(&h2);
                 if (tweaked) c->ctr_set_tkey(&h2, padded, padlen); else c->ctr_set_key(&h2, padded, padlen, 0);
